@@ -126,15 +126,16 @@ def run(ctx):
 
     # V: random long histories on larger tries validated by the trace specification
     def traces():
-        # (thorough: a second set of histories whose storage values are large enough for Commit to
-        #  write and uncache in several batches, with the clean cache enabled)
-        runs = [("", ["-n", ctx.pick(40, 300), "-steps", ctx.pick(80, 120), "-cleans", ctx.pick(0, 1 << 20)])]
-        if ctx.thorough:
-            runs.append(("fat", ["-n", 60, "-steps", 100, "-cleans", 1 << 20, "-fat", 50000]))
+        # "fat": 60 KB storage values; every history commits the first state (three such leaves) while it is
+        # fully cached, so Commit writes and uncaches in more than one batch (ethdb.IdealBatchSize)
+        runs = [("", ["-n", ctx.pick(40, 300), "-steps", ctx.pick(80, 120), "-cleans", ctx.pick(0, 1 << 20)]),
+                ("fat", ["-n", ctx.pick(8, 60), "-steps", ctx.pick(40, 100), "-cleans", 1 << 20, "-fat", 60000])]
         for tag, args in runs:
             tp = os.path.join(ctx.scratch, "trace%s.ndjson" % tag)
             wp = os.path.join(ctx.scratch, "tworld%s.json" % tag)
             s, _ = ctx.drive(drv, ["-mode", "record", "-trace", tp, "-world", wp] + args, name="c21-record" + tag)
+            if tag == "fat" and not s.get("violations") and not s.get("extra", {}).get("commits_spanning_batches"):
+                raise InfraError("no commit of the large-value histories spans two write batches")
             if s.get("violations"):
                 continue
             mod, w = world_module(ctx, "HashDBTraceW" + tag, "HashDBTrace", wp)
@@ -150,6 +151,6 @@ def run(ctx):
     traces()
     garbage()
     return ctx.finish(rule="MC: all client histories (build/reference/release/cap at every flush boundary/commit, MaxRef=1) over the built-in DAG and over DAGs of real trie histories; R: every edge of those graphs on hashdb.Database; V: random histories on larger tries",
-                      assumptions=["Commit modelled as atomic (its intermediate batch writes are not observed; thorough tier runs histories whose commits span several batches)",
+                      assumptions=["Commit modelled as atomic (its intermediate batch writes are not observed; histories with 60 KB storage values make commits span several batches)",
                                    "client builds states only on readable parents and references only readable roots",
                                    "node hashes are collision free (ids by hash)"])
